@@ -260,8 +260,12 @@ class Ctx:
             json.dump(ev, f, indent=1, sort_keys=False)
             f.write("\n")
         rc = 0
+        rdir = os.path.join(EVID, "replays")
+        if os.path.isdir(rdir):
+            for fn in os.listdir(rdir):
+                if fn.startswith(self.prop + "-"):
+                    os.remove(os.path.join(rdir, fn))
         if self.violations:
-            rdir = os.path.join(EVID, "replays")
             os.makedirs(rdir, exist_ok=True)
             seen = set()
             k = 0
@@ -287,12 +291,14 @@ class Ctx:
 
 
 def load_known(prop):
-    path = os.path.join(VERIF, "known-findings.json")
+    """Known findings of a property. Source of truth: props/<prop>.findings.json (committed);
+    known-findings.json is the aggregate generated from those fragments by lib/genmanifest.py."""
+    path = os.path.join(VERIF, "props", f"{prop}.findings.json")
     if not os.path.exists(path):
         return []
     with open(path) as f:
         data = json.load(f)
-    return [k for k in data.get("findings", []) if k.get("property") == prop]
+    return [k for k in data if k.get("property") == prop]
 
 
 _case_re = re.compile(r'^<<"CASE", "(.*)">>$')
